@@ -1268,7 +1268,9 @@ class Scene(Geometry3D):
             edge_data = result.graph.transforms.edge_data
             for uv in edge_data:
                 if "matrix" in edge_data[uv]:
-                    props = edge_data[uv]
+                    # the node is the authority on geometry: the value on
+                    # the edge may be stale, i.e. after `delete_geometry`
+                    props = {k: v for k, v in edge_data[uv].items() if k != "geometry"}
                     T = edge_data[uv]["matrix"].copy()
                     T[:3, 3] *= scale
                     props["matrix"] = T
